@@ -7,8 +7,8 @@
 //!
 //! - `println!`/`print!`/`eprintln!` below shadow the prelude macros for every module declared
 //!   after `mod verif` in `lib.rs`.
-//! - `verif::std` re-exports `::std` with `env::var_os`, `env::args_os` and `process::exit`
-//!   replaced; modules that touch those add `use crate::verif::std;`.
+//! - `verif::std` re-exports `::std` with `env::var_os`, `env::args_os`, `process::exit` and
+//!   `io::{stdout, stderr}` replaced; modules that touch those add `use crate::verif::std;`.
 //! - `tick()` is a step counter used as a deterministic watchdog.
 
 macro_rules! println {
@@ -157,6 +157,58 @@ pub(crate) mod std {
             match crate::verif::api::with(|w| w.args_os()) {
                 Some(v) => v.into_iter(),
                 None => ::std::env::args_os().collect::<Vec<_>>().into_iter(),
+            }
+        }
+    }
+
+    #[allow(dead_code)]
+    pub mod io {
+        pub use ::std::io::*;
+
+        /// Stand-in for `Stdout`/`Stderr` and their locks: bytes go to the installed world the
+        /// way the print macros' bytes do
+        pub struct Stream {
+            fd: i32,
+        }
+
+        pub fn stdout() -> Stream {
+            Stream { fd: 1 }
+        }
+
+        pub fn stderr() -> Stream {
+            Stream { fd: 2 }
+        }
+
+        impl Stream {
+            pub fn lock(&self) -> Stream {
+                Stream { fd: self.fd }
+            }
+        }
+
+        impl Write for Stream {
+            fn write(&mut self, buf: &[u8]) -> Result<usize> {
+                let fd = self.fd;
+                let sent = crate::verif::api::with(|w| {
+                    if w.mute() {
+                        Ok(())
+                    } else {
+                        w.write(fd, buf)
+                    }
+                });
+                match sent {
+                    Some(Ok(())) => Ok(buf.len()),
+                    Some(Err(e)) => Err(Error::new(ErrorKind::Other, e)),
+                    None if fd == 1 => ::std::io::stdout().write(buf),
+                    None => ::std::io::stderr().write(buf),
+                }
+            }
+
+            fn flush(&mut self) -> Result<()> {
+                match crate::verif::api::with(|_| ()) {
+                    Some(()) => Ok(()),
+                    None if self.fd == 1 => ::std::io::stdout().flush(),
+                    None => ::std::io::stderr().flush(),
+                }
             }
         }
     }
